@@ -127,7 +127,7 @@ func runCheck(w *World, o *checkOpts, t0 time.Time) int {
 	// ones): the same queries with longer time-outs and the machine to
 	// themselves, so that load on the host cannot turn a proved obligation
 	// into an alarm. Obligations recorded as open known findings are left.
-	{
+	if os.Getenv("GOVC_NORETRY") == "" {
 		kf := loadKnownFindings()
 		cfg2 := *cfg
 		cfg2.fastSec, cfg2.fullSec = cfg.fastSec*3, cfg.fullSec*4
@@ -156,6 +156,7 @@ func runCheck(w *World, o *checkOpts, t0 time.Time) int {
 				ob.Result.Secs += first[ob].Secs
 				ob.Result.Attempt = append([]string{fmt.Sprintf("first pass: %s after %.1fs; retried with time-outs %ds/%ds", first[ob].Status, first[ob].Secs, cfg2.fastSec, cfg2.fullSec)}, ob.Result.Attempt...)
 				w.retried++
+				w.retriedIDs = append(w.retriedIDs, ob.ID)
 			}
 		}
 	}
@@ -458,6 +459,7 @@ func writeEvidence(w *World, o *checkOpts, in evidenceInput) {
 		"not_under_contract":       notUnder,
 		"deferred_to_thorough":     in.deferred,
 		"retried_with_longer_timeouts": w.retried,
+		"retried_obligations":          w.retriedIDs,
 		"unproved_swept":           in.unproved,
 		"vacuity_guards_sat":       in.vacuityOK,
 		"undecided":                in.undecided,
